@@ -37,7 +37,39 @@ ASSUMPTIONS = ["libstdc++ 12 <algorithm>/<numeric> on raw pointers is the refere
                "numeric folds are run on values far from overflow"]
 TRUSTED = ["hand model Tetl/C06/Model/*.lean tied to the source by the correspondence run (R1) on every run",
            "spec Tetl/C06/Spec.lean validated against libstdc++ (R2) on every run"]
-THEOREMS = {}
+_T = "Tetl.C06.Props."
+THEOREMS = {op: [_T + t for t in ts] for op, ts in {
+    "find": ["find_eq"], "find_if": ["findIf_eq"], "find_if_not": ["findIfNot_eq"], "all_of": ["allOf_eq"],
+    "any_of": ["anyOf_eq"], "none_of": ["noneOf_eq"], "count": ["count_eq"], "count_if": ["countIf_eq"],
+    "for_each": ["forEach_eq"], "for_each_n": ["forEachN_eq"], "copy_n": ["copyN_eq"], "transform": ["transform1_eq"],
+    "transform2": ["transform2_eq"], "copy_if": ["copyIf_eq"], "remove_copy_if": ["removeCopyIf_eq"],
+    "remove_copy": ["removeCopy_eq"], "partition_copy": ["partitionCopy_eq"], "reverse_copy": ["reverseCopy_eq"],
+    "partition_point": ["partitionPoint_eq"], "is_partitioned": ["isPartitioned_eq"], "find_first_of": ["findFirstOf_eq"],
+    "rotate": ["rotate_eq"], "rotate_copy": ["rotateCopy_eq"], "reverse": ["reverseRA_eq", "reverseBidi_eq"],
+    "lower_bound": ["lowerBound_eq"], "upper_bound": ["upperBound_eq"], "equal_range": ["equalRange_eq"],
+    "binary_search": ["binarySearch_eq"], "mismatch": ["mismatch3_eq", "mismatch4_eq"],
+    "equal": ["equal3_eq", "equal4RA_eq", "equal4Fwd_eq"], "lexicographical_compare": ["lexicographicalCompare_eq"],
+    "accumulate": ["accumulate_eq"], "reduce": ["reduce_eq"], "transform_reduce1": ["transformReduce1_eq"],
+    "inner_product": ["innerProduct_eq"], "transform_reduce": ["transformReduce2_eq"],
+    "adjacent_difference": ["adjacentDifference_eq"], "partial_sum": ["partialSum_eq"], "iota": ["iota_eq"],
+    "min": ["min2_eq"], "max": ["max2_eq"], "minmax": ["minmax2_eq"], "clamp": ["clamp_eq"],
+    "remove_if": ["removeIf_eq"], "remove": ["remove_eq"], "unique": ["unique_eq"], "unique_copy": ["uniqueCopy_eq"],
+    "fill": ["fill_eq"], "fill_n": ["fillN_eq"], "generate": ["generate_eq"], "generate_n": ["generateN_eq"],
+    "replace_if": ["replaceIf_eq"], "replace": ["replace_eq"], "swap_ranges": ["swapRanges_eq"],
+    "copy": ["copy_eq"], "move": ["copy_eq"], "copy_backward": ["copyBackward_eq"], "move_backward": ["copyBackward_eq"],
+    "shift_left": ["shiftLeftRA_eq", "shiftLeftFwd_eq"], "shift_right": ["shiftRight_eq"],
+    "adjacent_find": ["adjacentFind_eq"], "is_sorted_until": ["isSortedUntil_eq"], "is_sorted": ["isSorted_eq"],
+    "min_element": ["minElement_eq"], "max_element": ["maxElement_eq"], "minmax_element": ["minmaxElement_eq"],
+    "search": ["search_eq"], "find_end": ["findEnd_eq"], "search_n": ["searchN_eq"],
+    "is_permutation": ["isPermutation3_eq", "isPermutation4_eq", "isPermutation_spec_iff_perm"], "includes": ["includes_eq"],
+    "partition": ["partition_eq"], "stable_partition": ["stablePartition_eq"],
+    "sort": ["sort_eq"], "gnome_sort": ["gnomeSort_eq"], "bubble_sort": ["bubbleSort_eq"], "exchange_sort": ["exchangeSort_eq"],
+    "nth_element": ["nthElement_eq", "sorted_split"], "partial_sort": ["partialSort_eq", "sorted_split"],
+    "stable_sort": ["stableSort_eq", "stableSort_characterisation"],
+    "insertion_sort": ["insertionSort_eq", "stableSort_characterisation"],
+    "merge_sort": ["mergeSort_eq", "stableSort_characterisation"], "inplace_merge": ["inplaceMerge_eq", "inplaceMerge_stable"],
+    "merge": ["merge_eq"], "set_difference": ["setDifference_eq"], "set_intersection": ["setIntersection_eq"],
+    "set_symmetric_difference": ["setSymmetricDifference_eq"], "set_union": ["setUnion_eq"]}.items()}
 SEARCH_CAP = 900000
 
 CMPS = ["dflt", "less", "greater", "mod3"]
